@@ -117,17 +117,16 @@ package comp
 // current cycle move (the one-cycle rule, together with Add's stamp c+1); the
 // queue never exceeds queueLength when it did not before.
 //@ func (*BufferedBus).Connect
-//@   requires len(b.queue) <= b.queueLength
 //@   ensures len(b.queue) >= len(old(b.queue)) && len(b.queue) - len(old(b.queue)) <= len(old(b.buffer))
 //@   ensures len(b.buffer) == len(old(b.buffer)) - (len(b.queue) - len(old(b.queue)))
 //@   ensures forall j :: 0 <= j && j < len(old(b.queue)) ==> b.queue[j] == old(b.queue[j])
 //@   ensures forall j :: 0 <= j && j < len(b.queue) - len(old(b.queue)) ==> b.queue[len(old(b.queue)) + j] == old(b.buffer[j].t) && old(b.buffer[j].availableFromCycle) <= currentCycle
 //@   ensures forall j :: 0 <= j && j < len(b.buffer) ==> b.buffer[j] == old(b.buffer[j + now(len(b.queue) - len(old(b.queue)))])
 //@   ensures len(b.buffer) > 0 ==> len(b.queue) == b.queueLength || b.buffer[0].availableFromCycle > currentCycle
-//@   ensures len(b.queue) <= b.queueLength
+//@   ensures old(len(b.queue) <= b.queueLength) ==> len(b.queue) <= b.queueLength
 //@   assigns b.queue, b.buffer, b.queue[*]
 //@   loop 0: invariant 0 <= i && i <= len(b.buffer) && b.buffer == old(b.buffer)
-//@   loop 0: invariant len(b.queue) == len(old(b.queue)) + i && len(b.queue) <= b.queueLength
+//@   loop 0: invariant len(b.queue) == len(old(b.queue)) + i && (old(len(b.queue) <= b.queueLength) ==> len(b.queue) <= b.queueLength)
 //@   loop 0: invariant sameArray(b.queue, old(b.queue)) || fresh(b.queue)
 //@   loop 0: invariant forall j :: 0 <= j && j < len(old(b.queue)) ==> b.queue[j] == old(b.queue[j])
 //@   loop 0: invariant forall j :: 0 <= j && j < i ==> b.queue[len(old(b.queue)) + j] == old(b.buffer[j].t) && old(b.buffer[j].availableFromCycle) <= currentCycle
@@ -383,4 +382,14 @@ package comp
 //@   requires len(addrs) >= 1 && align > 0 && addrs[0] >= 0
 //@   ensures int32(result) == addrs[0] - addrs[0] % align
 //@   ensures 0 <= int32(result) && int32(result) <= addrs[0] && addrs[0] - int32(result) < align
+//@   assigns nothing
+
+// ---------------------------------------------------------------- Queue (container/list; trusted, no functional content)
+//@ func NewQueue
+//@   trusted
+//@   ensures result != nil && fresh(result)
+//@   assigns nothing
+//@ func (*Queue).Length
+//@   trusted
+//@   ensures result >= 0
 //@   assigns nothing
